@@ -22,7 +22,7 @@ ASSUMPTIONS = [
     "rmask is accepted as lowercase/unambiguous, lowercase/length or lowercase-ACGT/length when a bin contains N (the statement does not choose)",
     "clustered references and PAR genomes are not driven; samples always allow sex inference when sexes are inferred (>= 20 chrX bins)",
 ]
-BUDGET_S = {"quick": 300, "thorough": 1800}
+BUDGET_S = {"quick": 600, "thorough": 2400}
 
 
 def setup(run):
